@@ -16,7 +16,7 @@ HOSTILE = [
     ("501numbers", " ".join(["1"] * 501)), ("denormal", "1e-320"), ("tabnl", "\t\n"),
 ]
 HUGE = {"intmax", "300digits", "1e999", "501numbers"}     # may legitimately ask for unbounded resources
-HOSTILE_QUICK = ["empty", "nan", "x", "20numbers", "intmax", "format", "501numbers"]
+HOSTILE_QUICK = ["empty", "nan", "-1", "x", "20numbers", "intmax", "format", "501numbers"]
 
 
 def loads(lib, xml, vfs):
